@@ -141,6 +141,32 @@ if __name__ == '__main__':
         rec = confirm(os.path.abspath(a[1]), wt)
         print(json.dumps(rec, indent=1))
         sys.exit(0 if rec.get('confirmed') else 1)
+    elif a and a[0] == 'confirm-all':
+        wt = '/tmp/wt/base'
+        if '--wt' in a:
+            wt = a[a.index('--wt') + 1]
+        sd = os.path.join(V, 'seeded')
+        for i in sorted(os.listdir(sd)):
+            mp = os.path.join(sd, i, 'meta.json')
+            if not os.path.exists(mp):
+                continue
+            meta = json.load(open(mp))
+            if meta.get('confirmed') is not None:
+                continue
+            rec = confirm(os.path.join(sd, i), wt)
+            meta = json.load(open(mp))
+            meta['confirmed'] = bool(rec.get('confirmed'))
+            meta['what_i_ran'] = ['tools/seeded.py confirm (scratch worktree %s): ' % wt + '; '.join(
+                '%s=%s' % (s['step'], 'ok' if s['ok'] else 'FAILED') for s in rec['steps'])]
+            fails = [s for s in rec['steps'] if not s['ok']]
+            if fails:
+                meta['confirm_failures'] = fails
+            demo_fail = [s for s in rec['steps'] if s['step'].startswith('demo with the change')]
+            if demo_fail:
+                meta['demo_output_with_change'] = demo_fail[0]['info'][-500:]
+            json.dump(meta, open(mp, 'w'), indent=1)
+            print(i, 'confirmed' if meta['confirmed'] else 'NOT CONFIRMED', [s['step'] for s in fails], flush=True)
+        sys.exit(0)
     elif a and a[0] == 'drill':
         allc = '--all-checks' in a
         sys.exit(drill([x for x in a[1:] if not x.startswith('--')], allc))
